@@ -136,16 +136,18 @@ def run_case(ctx, rep, case, base, model_ok):
                 return
             finally:
                 del h.storage.write_file
-        elif case.get("kind") == "prebuilt-file":
+        elif case.get("kind") in ("prebuilt-file", "prebuilt-nested"):
             # a data file built OUTSIDE the library (already older than the grace period) queued through the file-level API
             import pyarrow as pa
             import pyarrow.parquet as pq
             from datashard.data_structures import DataFile, FileFormat
             sch_ = h.file_manager.data_file_manager.create_arrow_schema(tablekit.schema())
-            fp_ = os.path.join(path, "data", f"prebuilt_{a}.parquet")
+            sub_ = "region=eu/" if case.get("kind") == "prebuilt-nested" else ""
+            os.makedirs(os.path.join(path, "data", sub_), exist_ok=True)
+            fp_ = os.path.join(path, "data", sub_, f"prebuilt_{a}.parquet")
             pq.write_table(pa.table({"id": [1000 * a], "name": [f"ext{a}"]}, schema=sch_), fp_)
-            _age(path, f"data/prebuilt_{a}.parquet")
-            tx.append_files([DataFile(file_path=f"/data/prebuilt_{a}.parquet", file_format=FileFormat.PARQUET, partition_values={},
+            _age(path, f"data/{sub_}prebuilt_{a}.parquet")
+            tx.append_files([DataFile(file_path=f"/data/{sub_}prebuilt_{a}.parquet", file_format=FileFormat.PARQUET, partition_values={},
                                       record_count=1, file_size_in_bytes=os.path.getsize(fp_))])
             tx._written_files.append(f"data/prebuilt_{a}.parquet") if False else None
         elif case.get("kind") == "delete-partial":
@@ -153,7 +155,7 @@ def run_case(ctx, rep, case, base, model_ok):
             tx.append_data(tablekit.rows(1, start=1000 * a, tag=f"t{a}_"))
         else:
             tx.append_data(tablekit.rows(1, start=1000 * a, tag=f"t{a}_"))
-        rel = tx._written_files[0].lstrip("/") if tx._written_files else f"data/prebuilt_{a}.parquet"
+        rel = tx._written_files[0].lstrip("/") if tx._written_files else f"data/{'region=eu/' if case.get('kind') == 'prebuilt-nested' else ''}prebuilt_{a}.parquet"
         old = case["aged"][a - 1]
         if old:
             _age(path, rel)
@@ -203,7 +205,7 @@ def run_case(ctx, rep, case, base, model_ok):
         sig = "C06:committed-file-deleted-by-concurrent-gc" if "missing" in p_ else "C06:" + p_.split(":")[0].replace(" ", "-")[:50]
         if "missing" in p_ and any(case["aged"]):
             sig = "C06:commit-between-metadata-read-and-marker-load"
-        if case.get("kind") == "prebuilt-file":
+        if case.get("kind") in ("prebuilt-file", "prebuilt-nested"):
             sig = "C06:prebuilt-file-of-an-open-transaction-has-no-marker"
         rep.violate(sig, f"{case['txs']} tx, aged {case['aged']}: {p_}", case_rec)
     # ---------------- correspondence: abstract trace → model
@@ -364,7 +366,7 @@ def run(ctx, model_ok):
         # grace 0: EVERYTHING unreachable and unprotected goes — a whole collection after each gated operation of one commit
         # (append / partial delete that rewrites a manifest / append whose first marker write failed)
         for variant in ({"kind": "append"}, {"kind": "delete-partial"}, {"kind": "append", "marker_fault": True}, {"kind": "prebuilt-file"},
-                        {"kind": "prebuilt-file", "grace": GRACE_MS}):
+                        {"kind": "prebuilt-file", "grace": GRACE_MS}, {"kind": "prebuilt-nested"}, {"kind": "prebuilt-nested", "grace": GRACE_MS}):
             k = 0
             while True:
                 c = {"id": cid, "txs": 1, "aged": [True], "rollback": [False], "chooser": _gc_after_k(k), "grace": 0, "no_model": True, **variant}
